@@ -540,6 +540,7 @@ type e2Summary struct {
 	fidelity                            []string
 	keys                                []string
 	cutWal                              int // images whose newest WAL file ends inside a record
+	opsList                             []e2Op
 }
 
 type e2Config struct {
@@ -590,6 +591,7 @@ func e2RunSession(c *fw.Case, cfg e2Config) *e2Summary {
 		return nil
 	})
 	sum.ops = len(st.ops)
+	sum.opsList = append([]e2Op{}, st.ops...)
 	if len(rp.Problems) > 0 {
 		sum.problems = rp.Problems
 		sum.inconclusive = append(sum.inconclusive, "replayer did not understand part of the log: "+rp.Problems[0])
@@ -764,11 +766,13 @@ func e2RunSession(c *fw.Case, cfg e2Config) *e2Summary {
 
 // e2NewestWalIsCut tells (with the harness's own layout parser) whether the newest WAL file of the current
 // image ends inside a record.
-func e2NewestWalIsCut(rp *strace.Replayer) bool {
+func e2NewestWalIsCut(rp *strace.Replayer) bool { return e2NewestWalIsCutIn(rp, "wal/") }
+
+func e2NewestWalIsCutIn(rp *strace.Replayer, prefix string) bool {
 	newest := ""
 	for _, l := range rp.Listing() {
 		name := strings.Fields(l)[0]
-		if strings.HasPrefix(name, "wal/") && strings.HasSuffix(name, ".wal") && name > newest {
+		if strings.HasPrefix(name, prefix) && strings.HasSuffix(name, ".wal") && name > newest {
 			newest = name
 		}
 	}
